@@ -910,6 +910,10 @@ class BaseModel(ModelInterface):
 
         # convert to proper dataframe
         if to_dataframe:
+            # a unique time-point may be given as a scalar whereas the index of a frame has to be a collection
+            timepoints = {
+                subj_id: np.atleast_1d(tpts) for subj_id, tpts in timepoints.items()
+            }
             estimations = pd.concat(
                 {
                     subj_id: pd.DataFrame(  # columns names may be directly embedded in the dictionary after a `postprocess_model_estimation`
